@@ -440,7 +440,7 @@ def cfgkey2name(keyid: int) -> tuple:
         typ = f"X{ubcdb.UBX_CONFIG_STORSIZE[int(hex(keyid)[2:3])]:03d}"
         return (key, typ)
 
-    except KeyError as err:
+    except (KeyError, ValueError) as err:
         raise ube.UBXMessageError(
             f"Invalid configuration database key {hex(keyid)}"
         ) from err
